@@ -79,6 +79,14 @@ class Taint(AbstractValue):
             t = self.clone(op='pad')
             t.extra_labels = tuple(getattr(self, 'extra_labels', ())) + tuple(_labels_of(a) for a in args)
             return t
+        if getattr(self, 'word', False):
+            # a single non-blank word: whitespace tests are false, splitting on whitespace gives the word itself
+            if name == 'isspace':
+                return False
+            if name in ('split', 'rsplit') and (not args or args[0] is None):
+                return [self]
+            if name in ('strip', 'lstrip', 'rstrip') and not args:
+                return self
         if name in ('startswith', 'endswith', 'isspace', 'isdigit', 'isupper', 'isalpha'):
             return Cond(('strtest', name, _freeze(args), self.prov))
         if name in ('split', 'splitlines', 'rsplit'):
@@ -110,7 +118,14 @@ class Taint(AbstractValue):
         return _AbsBound(self, name)
 
     def abs_getitem(self, interp, idx):
-        return self.clone()
+        t = self.clone()
+        if getattr(self, 'word', False):
+            # one character of a word, or its first / last characters, is still not blank; other slices may be empty
+            keeps = idx in (0, -1) or (isinstance(idx, slice) and idx.step is None and (
+                (idx.start in (-1,) and idx.stop is None) or (idx.start in (None, 0) and idx.stop == 1)))
+            if not keeps:
+                t.word = False
+        return t
 
     def abs_len(self, interp):
         if LEN_AFFINE[0]:
